@@ -19,6 +19,10 @@ SHARDS = {"quick": 1, "thorough": 16}
 WATCHDOG = {"quick": 900, "thorough": 3000}
 TOL = 1e-3
 DIMS = [1, 2, 3, 4, 5, 6, 10]
+# larger dimensions get a reduced search budget per variant (the constructor accepts any dimension: powers, products and index-
+# dependent constants are where a formula can stop being finite or stop matching its metadata)
+DIMS_LARGE_QUICK = [16, 17, 33]
+DIMS_LARGE = [7, 8, 9, 12, 16, 17, 20, 30, 50, 80]
 
 
 def functions():
@@ -47,13 +51,13 @@ def instantiate(cls, dim):
     return p
 
 
-def variants(cls):
+def variants(cls, extra=()):
     """dimensions the constructor accepts; fixed-dimension classes ignore the argument"""
     out = []
     p0 = instantiate(cls, None)
     if p0 is not None and len(p0.parameters) > 0:
         return [(None, p0)]
-    for d in DIMS:
+    for d in list(DIMS) + [d_ for d_ in extra if d_ not in DIMS]:
         p = instantiate(cls, d)
         if p is not None and len(p.parameters) == d:
             out.append((d, p))
@@ -62,19 +66,20 @@ def variants(cls):
 
 def cases(ctx):
     for cls in functions():
-        yield "function", {"cls": cls.__name__, "seed": ctx.subseed(cls.__name__),
+        yield "function", {"cls": cls.__name__, "seed": ctx.subseed(cls.__name__), "extra": ctx.pick(DIMS_LARGE_QUICK, DIMS_LARGE),
                            "n_random": ctx.pick(2000, 4000), "starts": ctx.pick(10, 16)}
     if not ctx.quick:
         for cls in functions():
             for rep in range(120):
+                rr = ctx.rng("dims", cls.__name__, rep)
                 yield "function", {"cls": cls.__name__, "seed": ctx.subseed(cls.__name__, rep),
-                                   "n_random": 3000, "starts": 12}
+                                   "extra": [rr.randint(7, 64)] if rep % 4 == 0 else [], "n_random": 3000, "starts": 12}
 
 
 def run_case(ctx, name, params):
     from artap.individual import Individual
     cls = next(c for c in functions() if c.__name__ == params["cls"])
-    vs = variants(cls)
+    vs = variants(cls, params.get("extra", ()))
     if not vs:
         ctx.count("classes_not_constructible")
         return
@@ -84,6 +89,8 @@ def run_case(ctx, name, params):
         if len(p.costs) != 1:
             continue
         ctx.count("function_variants")
+        if len(p.parameters) > 10:
+            ctx.count("function_variants_above_10_dimensions")
         n = len(p.parameters)
         box = [tuple(q["bounds"]) for q in p.parameters]
         maximize = p.costs[0].get("criteria", "minimize") != "minimize"
@@ -184,14 +191,15 @@ def run_case(ctx, name, params):
                 v = f(x)
                 return (math.inf if v is None else sign * v), x
             cands = []
-            for _ in range(params["n_random"]):
+            large = n > 10
+            for _ in range(max(200, params["n_random"] * 4 // n) if large else params["n_random"]):
                 q = [lb + r.random() * (ub - lb) for lb, ub in box]
                 v, q = fs(q)
                 cands.append((v, q))
             if best is not None:
                 cands.append((sign * best[0], best[1]))
             cands.sort(key=lambda t: t[0])
-            tops = cands[:params["starts"]]
+            tops = cands[:(2 if large else params["starts"])]
             if coords is not None and len(coords) == n:
                 # the documented optimum itself is always a start: anything better right next to it is found by the
                 # shrinking pattern (steps from 1/8 of the range down to 1e-7 of it)
@@ -267,6 +275,7 @@ def run_case(ctx, name, params):
 
 def requirements(ctx):
     ctx.require("function_variants", 20)
+    ctx.require("function_variants_above_10_dimensions", 10)
     ctx.require("evaluations_python", 5000)
     ctx.require("evaluations_numpy", 1000)
     ctx.require("optimum_value_checks", 20)
